@@ -274,7 +274,7 @@ currently-scanned namespace is first."""
         for ns in self._iter_namespaces():
             if is_identifier:
                 prefixes = ns.identifier_prefixes
-            elif name[0].isupper():
+            elif name[:1].isupper():
                 prefixes = ns._ucase_symbol_prefixes
             else:
                 prefixes = ns.symbol_prefixes
